@@ -131,7 +131,8 @@ def enum_cleaning(seed):
                     shape.setdefault(p.category, {}).setdefault(p.package, []).append(p.fullver)
                 base = SimpleTree(shape, pkg_klass=lambda cat, pn, ver: by_cpv[f"{cat}/{pn}-{ver}"])
                 source_repos = [filtered.tree(base, _packages.OrRestriction(*[by_cpv[c].versioned_atom for c in masked], negate=True), True)]
-                repo = None
+                # ... reached either as the domain's repositories (no -r) or as the repository -r names, which is the filtered one as well
+                repo = None if s % 2 == 0 else source_repos[0]
             # exclusions as the command line gives them: -x patterns, an -X file (last line with or without a line end is the user's business:
             # here without, so that no empty pattern arises), or both; the namespace is built by pclean's own parse hooks
             excl_forms = (None, ([names[1]], None), (None, names[1]), (None, names[2] + "\n" + names[1]), ([names[2]], names[1]))
@@ -298,8 +299,41 @@ def t_file_filters(ex):
     ex.oblige(f"{P}.ensures.passes_exactly_when_older_and_smaller_than_the_given_bounds", got == want)
 
 
+def enum_distfile_names(seed):
+    """the file names the keep-sets are made of: the real distfiles attribute of ebuild packages (ebuild_src.base.distfiles) on SRC_URI strings with
+    awkward names -- plus signs in the file name and in directories, EAPI 8 fetch+ / mirror+ prefixes, renames, USE-conditional groups -- must name
+    exactly the files the fetcher stores: the rename target where there is one, the last path component otherwise"""
+    from pkgcore.ebuild import ebuild_src
+    from pkgcore.ebuild.eapi import get_eapi
+    from snakeoil.sequences import iflatten_instance
+    distfiles = ebuild_src.base._get_attr["distfiles"]
+    uris = [("https://example.org/dl/gtk+-2.24.33.tar.xz", "gtk+-2.24.33.tar.xz"), ("https://example.org/c++/libsigc++-3.6.0.tar.xz", "libsigc++-3.6.0.tar.xz"), ("https://example.org/a+b+c.zip", "a+b+c.zip"),
+            ("https://example.org/c++/plain.tar", "plain.tar"), ("libsigc++-3.6.0-vendor.tar.xz", "libsigc++-3.6.0-vendor.tar.xz"), ("https://example.org/x.tar.gz -> renamed+1.tar.gz", "renamed+1.tar.gz"),
+            ("https://example.org/normal-1.0.tar.gz", "normal-1.0.tar.gz")]
+    uris8 = [("fetch+https://example.org/dl/gtk+-3.24.0.tar.xz", "gtk+-3.24.0.tar.xz"), ("mirror+https://example.org/x+y.tgz", "x+y.tgz"), ("fetch+https://example.org/f.tar -> g+h.tar", "g+h.tar"),
+             ("mirror+https://example.org/dir+1/plain2.tar", "plain2.tar")]
+    cases, fails = 0, []
+    for eapi in ("6", "7", "8"):
+        pool = uris + (uris8 if eapi == "8" else [])
+        lines = [[u] for u in pool] + [pool, list(reversed(pool))] + [[pool[i], ("x?", pool[(i + 1) % len(pool)]), pool[(i + 2) % len(pool)]] for i in range(len(pool))]
+        for line in lines:
+            cases += 1
+            text = " ".join(t[0] if isinstance(t[0], str) and len(t) == 2 and not t[0].endswith("?") else f"{t[0]} ( {t[1][0]} )" for t in line)
+            want = sorted(t[1] if not t[0].endswith("?") else t[1][1] for t in line)
+            fake = types.SimpleNamespace(data={"SRC_URI": text}, eapi=get_eapi(eapi))
+            try:
+                got = sorted(iflatten_instance(distfiles(fake)))
+            except Exception as e:
+                got = f"{type(e).__name__}: {e}"
+            if got != want and len(fails) < 4:
+                fails.append({"model": {"eapi": eapi, "SRC_URI": text}, "detail": f"EAPI {eapi} SRC_URI={text!r}: distfiles names {got}, the files are {want}"})
+    return {"name": "C46.distfile_names.bounded_enumeration", "bound": "EAPI 6 / 7 / 8, SRC_URI strings of 1..11 entries over 7 (+4 for EAPI 8) URIs with plus signs in names and directories, fetch+ / mirror+ prefixes, renames and USE-conditional groups",
+            "cases": cases, "failures": fails}
+
+
 def tasks():
     return [Task("C46.dist_cleaning", None, [(PC, "_dist_validate_args"), (PC, "_setup_shared_opts"), (PC, "_setup_restrictions")], enumerate=enum_cleaning),
+            Task("C46.distfile_names", None, [("src/pkgcore/ebuild/ebuild_src.py", "base.distfiles")], enumerate=enum_distfile_names),
             Task("C46._remove", t_remove, [(PC, "_remove")]),
             Task("C46.file_filters", t_file_filters, [(PC, "_setup_file_opts"), (PC, "Filters.run"), (PC, "Filters.append")])]
 
